@@ -16,13 +16,15 @@ P = "param.parameterized."
 
 
 def run(ctx):
+    ctx.rule("R04.f", "`param.update(...)` used as a context manager restores the previous links on exit: Parameters.update, interpreted abstractly on six call forms (keywords / dict / dict+keywords / "
+                      "pairs / pairs+keywords), hands the restorer the reference of every given parameter that is currently linked (synchronous or pending asynchronous) -- shared with R08.f", floor=1)
     ctx.rule("R04.x", "context-manager model: _batch_call_watchers, batch_call_watchers, discard_events, _syncing and edit_constant interpreted abstractly with the body of the `with` supplied at the `yield` (62 cases: entry state x body ends normally / raises x nesting x queues replaced in the body x Parameter copies made in the body): flag, queues, syncing set and constant flags are, after the block, what they were before; the flush runs iff outermost, after the restore, also when the body raised", floor=1)
     ctx.rule("R04.r", "update-context exit: _ParametersRestorer.__exit__ interpreted abstractly (3 cases) assigns back every recorded previous value -- also one identical to the current value -- and every remembered reference in one update, and forgets the record, also when that update raises", floor=1)
     ctx.rule("R04.y", "Event model: Event.__set__ interpreted abstractly on mode (set-reset / set / reset) x the assignment proper succeeds / is refused / a watcher raises: in set-reset the Event is assigned and then reset whatever happens, in set (held so by update/trigger while it is delivered) it is assigned and NOT reset, in reset it is only reset", floor=1)
     ctx.rule("R04.a", "while the batching flag is set _call_watcher executes nothing: on that arm the event and the watcher are queued (16 abstract cases incl. queued watchers, exhaustive)", floor=1)
     ctx.rule("R04.b", "every flush call outside the flush itself is controlled by `not <saved batching flag>` or `not <read of the flag>` (flush iff outermost)", floor=5)
-    ctx.rule("R04.c", "coalescing: a watcher already queued (by identity) is not queued again, a different one is; the flush maps (name, what) -> last event in queue order, "
-                      "empties both queues before running the watchers and loops until no event is left", floor=4)
+    ctx.rule("R04.c", "coalescing: a watcher already queued (by identity) is not queued again, a different one is; the flush "
+                      "empties both queues before running the watchers and loops until no event is left (which event each watcher receives: flush model, R04.h)", floor=3)
     ctx.rule("R04.g", "the flush runs the queued watchers in precedence order on every path (stable sort of the queue)", floor=1)
     ctx.rule("R04.i", "every writer that extends the watcher queue keeps it free of duplicates by identity (an append is guarded by an identity test, a merge filters by identity)", floor=2)
     ctx.rule("R04.d", "discard_events restores copies of the queues taken before the body (not aliases)", floor=2)
@@ -117,22 +119,7 @@ def run(ctx):
             ctx.fail("R04.c", cw, cw.node, "a second, different watcher is not queued (de-duplication is not by identity)", key=cw.qualname + "::dedup-not-identity")
     fl = ctx.repo.func(P + "Parameters._batch_call_watchers")
     fc = ctx.facts.cfg(fl)
-    maps = [st for st in walk_stmts(fl.node) if isinstance(st, ast.Assign) and any(isinstance(c, (ast.ListComp, ast.DictComp, ast.GeneratorExp)) for c in ast.walk(st.value))
-            and "_events" in norm(st.value)]
-    ok = False
-    for st in maps:
-        for comp in ast.walk(st.value):
-            if isinstance(comp, (ast.ListComp, ast.GeneratorExp)) and isinstance(comp.elt, ast.Tuple) and len(comp.elt.elts) == 2:
-                key = comp.elt.elts[0]
-                if isinstance(key, ast.Tuple) and [norm(k) for k in key.elts] == ["event.name", "event.what"] and norm(comp.elt.elts[1]) == "event" \
-                        and norm(comp.generators[0].iter).endswith("._events") and not comp.generators[0].ifs:
-                    ok = True
-            if isinstance(comp, ast.DictComp) and isinstance(comp.key, ast.Tuple) and [norm(k) for k in comp.key.elts] == ["event.name", "event.what"] \
-                    and norm(comp.value) == "event" and norm(comp.generators[0].iter).endswith("._events") and not comp.generators[0].ifs:
-                ok = True
-    (ctx.ok if ok else ctx.fail)("R04.c", fl, maps[0] if maps else fl.node,
-                                 "event map keyed by (name, what) over the queue in order (last event wins)" if ok else
-                                 "the flush no longer builds its event map keyed by (event.name, event.what) over the whole queue in order")
+    # (which event a watcher receives is decided by the flush model, R04.h -- not by the shape of the mapping expression)
     loops = [nd for nd in fc.live_nodes() if nd.kind == "iter" and any(isinstance(c, ast.Call) and isinstance(c.func, ast.Attribute) and c.func.attr == "_execute_watcher" for c in ast.walk(nd.stmt))]
     resets = {}
     for nd in fc.live_nodes():
@@ -322,6 +309,8 @@ def run(ctx):
     # the structural findings above are still reported
     from checks.shared import flush_model
     flush_model(ctx, "R04.h")
+    from checks.c08 import update_restorer_refs
+    update_restorer_refs(ctx, "R04.f")
 
     from checks.shared import restorer_model
     restorer_model(ctx, "R04.r")
